@@ -55,6 +55,10 @@ def variants(toks, pairs):
             yield (f"dir{g}:{name}", base, {g: [d]})
             # the same directive when every token sits alone on its line
             yield (f"dirnl{g}:{name}", ["\n"] * (n - 1), {g: [d]})
+    # the same directive before EVERY token, one token per line: all tokens then
+    # share one (file, line, column) - anything keyed by a token's position collides
+    for name, d in _directives():
+        yield (f"dirall:{name}", ["\n"] * (n - 1), {g: [d] for g in range(n)})
     if pairs:
         for g1, g2 in itertools.combinations(range(n - 1), 2):
             for s1, s2 in (("\n", "\n"), ("\n", "\t"), ("\t", "\n")):
